@@ -137,13 +137,25 @@ pub fn catch<T>(f: impl FnOnce() -> T) -> Result<T, String> {
             } else {
                 "panic".to_string()
             };
-            Err(msg)
+            // the quiet hook remembers where the panic was raised (file:line), which makes replays readable
+            let loc = LAST_PANIC_LOC.with(|l| l.borrow_mut().take());
+            Err(match loc {
+                Some(l) => format!("{msg} [at {l}]"),
+                None => msg,
+            })
         }
     }
 }
 
+thread_local! {
+    static LAST_PANIC_LOC: std::cell::RefCell<Option<String>> = const { std::cell::RefCell::new(None) };
+}
+
 pub fn quiet_panics() {
-    std::panic::set_hook(Box::new(|_| {}));
+    std::panic::set_hook(Box::new(|info| {
+        let loc = info.location().map(|l| format!("{}:{}", l.file(), l.line()));
+        let _ = LAST_PANIC_LOC.try_with(|c| *c.borrow_mut() = loc);
+    }));
 }
 
 /// What the implementation did on one case.
